@@ -168,11 +168,6 @@ theorem vec_good {α} {a : Codec α} {va} (ha : a.Good va) :
 
 end Codec
 
-/-- C08/C13 for `BitVector`: every vector whose word count and length fit a `usize` -/
-theorem BV.codec_good : BV.codec.Good (fun b => b.words.size < 256^8 ∧ (∀ w ∈ b.words.toList, w < 256^8) ∧ b.len < 256^8) := by
-  apply Codec.iso_good (Codec.seq_good (Codec.vec_good (Codec.uint_good 8)) (Codec.uint_good 8))
-  · intro b _; cases b; simp
-  · intro b ⟨h1, h2, h3⟩
-    exact ⟨⟨by simpa using h1, h2⟩, h3⟩
+-- `BV.codec_good` is in Sucds/Proofs/SerialStruct.lean (the codec itself is generated from the Rust sources)
 
 end Sucds
